@@ -17,7 +17,7 @@ PRIMS = {"u8": 1, "u16": 2, "u32": 4, "u64": 8, "u128": 16, "usize": 8, "i64": 8
 class Harness:
     def __init__(self, name, props, tier, fn, args, unwind, covers, funcs, bounds,
                  heavy=False, timeout=None, crate="quinn_proto", stubs=(), note="",
-                 assumes=(), solver=None):
+                 assumes=(), solver=None, unwind_probe=None):
         self.name = name
         self.props = props if isinstance(props, (list, tuple)) else [props]
         self.tier = tier            # "quick" (also run in thorough) or "thorough"
@@ -34,6 +34,9 @@ class Harness:
         self.note = note
         self.assumes = list(assumes)
         self.solver = solver
+        # (replay-only harness, {arg: value}): where the loop bound IS the property ("bounded step count per input"), a
+        # failed unwinding assertion is a candidate; the named native body runs the operation under a watchdog
+        self.unwind_probe = unwind_probe
 
     # ---- wrapper generation -------------------------------------------------
     def wrapper(self):
